@@ -126,22 +126,22 @@ pub fn run(u: &Unit, ch: &mut Chooser, want_trace: bool) -> (ExecReport<RViol>, 
         };
         for it in &items {
             states.push(lock(&w).state_hash(1));
-            lock(&w).ev.push(Ev::Note("poll_ready".into()));
+            lock(&w).ev.push(Ev::Note(Txt::S("poll_ready")));
             if !drive(&mut |s, cx| s.ready(cx), &mut sut) {
                 return Err("poll_ready never became ready / returned an error".to_string());
             }
-            lock(&w).ev.push(Ev::Note(format!("start_send {}", frame_brief(it))));
+            lock(&w).ev.push(Ev::Note(Txt::Frame(it.clone())));
             lock(&w).steps = 0;
             sut.send(it.clone());
             sent.push(it.clone());
         }
         states.push(lock(&w).state_hash(2));
-        lock(&w).ev.push(Ev::Note("poll_flush".into()));
+        lock(&w).ev.push(Ev::Note(Txt::S("poll_flush")));
         if !drive(&mut |s, cx| s.flush(cx), &mut sut) {
             return Err("poll_flush never completed / returned an error".to_string());
         }
         states.push(lock(&w).state_hash(3));
-        lock(&w).ev.push(Ev::Note("poll_close".into()));
+        lock(&w).ev.push(Ev::Note(Txt::S("poll_close")));
         if !drive(&mut |s, cx| s.close(cx), &mut sut) {
             return Err("poll_close never completed / returned an error".to_string());
         }
